@@ -189,14 +189,16 @@ class Gen:
         falsy = False
         if self.cfg.odd_sources and fl not in CONTAINER_FLAVOURS and fl != "agen":
             falsy = self.ch.chance(1, 8)
-        resilient = fl == "agen" and self.cfg.odd_sources and self.ch.chance(1, 6)
+        resilient = (1 + self.ch.draw(2)) if (fl == "agen" and self.cfg.odd_sources and self.ch.chance(1, 5)) else False
         slow = None
         if self.cfg.odd_sources and fl not in ("list", "tuple") and self.ch.chance(1, 8):
             # a slow producer: virtual seconds pass inside some of its pulls
             slow = tuple((0.0, 0.05, 0.3, 2.0)[self.ch.draw(4)] for _ in range(3))
         equal = self.equal_sources and fl in ("aiter_cls", "aiter_full", "aiter_noclose")
         return SrcPlan(name, items, fl, susp, ac, aclose_mode=mode, falsy=falsy, resilient=resilient, equal=equal, slow=slow,
-                       dual=fl == "aiter_cls" and bool(self.cfg.odd_sources) and self.ch.chance(1, 8))
+                       dual=fl == "aiter_cls" and bool(self.cfg.odd_sources) and self.ch.chance(1, 8),
+                       lazy_open=fl in ("aiter_cls", "aiter_full") and bool(self.cfg.odd_sources) and self.ch.chance(1, 8),
+                       hand_next=fl == "aiter_cls" and bool(self.cfg.odd_sources) and self.ch.chance(1, 8))
 
     def fn(self, kind, param=0):
         fls = self.cfg.fn_flavours
